@@ -215,10 +215,13 @@ PURE_MODEL_PROPS = ["C01", "C02", "C03", "C04", "C05", "C06", "C07", "C09", "C10
 STATE_NOTE = ("; STATE: the model is a pure function of (line, flags) - tied to the source by the regenerated facts "
               "Facts_globals / Facts_writes / Facts_mapping_write_only / Facts_inits / Facts_footprint (the package-level variables are the operator "
               "tables, three regular expressions, the option variables - each written by its own setter only - and one write-only side table; no init "
-              "function) and by the session correspondence + history oracle (every line of a session must come out as when processed alone)")
+              "function) and by the session correspondence + history oracle (every line of a session must come out as when processed alone)"
+              "; VOCABULARY (walker properties): Facts_vocabulary - the string literals in key positions of anonymizer.go / helpers.go are exactly the keys the model singles out")
+# the walker / line model singles out exactly the keys the source singles out (Facts_vocabulary)
+VOCABULARY_PROPS = ["C01", "C02", "C03", "C04", "C05", "C12", "C14", "C15", "C19"]
 for _p in PURE_MODEL_PROPS:
     _s = PROPS[_p]
-    _s["theorems"] = _s["theorems"] + [t for t in STATE_FACTS if t not in _s["theorems"]]
+    _s["theorems"] = _s["theorems"] + [t for t in STATE_FACTS + (["Anonymongo.Facts_vocabulary"] if _p in VOCABULARY_PROPS else []) if t not in _s["theorems"]]
     if "session" not in _s["corr"]:
         _s["corr"] = _s["corr"] + ["session"]
     _s["statement"] = _s.get("statement", "") + STATE_NOTE
@@ -230,7 +233,7 @@ FACT_MODULES = {
     "Anonymongo.Facts_gate": "Gate", "Anonymongo.Facts_priv": "Priv", "Anonymongo.Facts_wiring": "Wiring",
     "Anonymongo.Facts_globals": "Globals", "Anonymongo.Facts_writes": "Writes", "Anonymongo.Facts_mapping_write_only": "Mapping",
     "Anonymongo.Facts_inits": "Inits", "Anonymongo.Facts_footprint": "Footprint", "Anonymongo.Facts_footprint_atlas": "Footprint",
-    "Anonymongo.Facts_atlas_requests": "AtlasReq",
+    "Anonymongo.Facts_atlas_requests": "AtlasReq", "Anonymongo.Facts_vocabulary": "Vocabulary",
 }
 for _p, _s in PROPS.items():
     _em = [m for m in _s.get("extra_modules", []) if m != "Anonymongo.Props.SrcFacts"]
